@@ -33,6 +33,8 @@ from translate import c03_contract
 
 KNOWN_MISSING = 'composite-missing-at-entry'
 KNOWN_ORDER = 'composite-resolved-through-later-state-variable'
+KNOWN_FORTARGET = 'nouts-for-target-killed-on-loop-exit'
+SHIFT = 4     # module prelude lines in front of the generated function
 
 DIRECTIVE = 'malt.experimental.set_loop_options'
 DIRECTIVE_PARAMS = ['parallel_iterations', 'swap_memory', 'maximum_iterations', 'shape_invariants']
@@ -112,6 +114,7 @@ CORPUS = [
     ('main', "def f(a, b, c, m, o, d, e):\n    x = 0\n    if D(1):\n        d['k'] = T(2)\n        o.v = T(3)\n        x = x + 1\n    for y in L(4):\n        " + DIRECTIVE + "(maximum_iterations=3)\n        x += y\n        if D(5, x):\n            break\n    while D(6):\n        " + DIRECTIVE + "(parallel_iterations=K1, swap_memory=True)\n        x += 1\n        for z in L(7):\n            " + DIRECTIVE + "(maximum_iterations=K2)\n            o.v += z\n    return T(8, x)\n"),
     ('main', "def f(a, b, c, m, o, d, e):\n    x = T(1)\n    y = T(2)\n    if D(3):\n        y = x + 1\n        x = 5\n        z = 7\n    else:\n        z = 8\n    w = (T(4) if D(5) else T(6)) + (D(7) and D(8)) + (not D(9)) + (D(10) or D(11))\n    return T(12, y, z, w)\n"),
     ('main', "def f(a, b, c, m, o, d, e):\n    global G\n    x = 1\n    while D(1):\n        G = T(2, x)\n        x += 1\n        if D(3):\n            continue\n        o.v = x\n        if D(4):\n            return T(5, x)\n    return T(6, x)\n"),
+    ('main', "def f(a, b, c, m, o, d, e):\n    w = T(1)\n    for w in L(2):\n        if D(3, w):\n            w = T(4, w)\n    return T(5, w)\n"),
     ('missing', "def f(a, b, c, m, o, d, e):\n    if D(1):\n        d['j'] = T(2)\n    if D(3):\n        o.w = T(4)\n    return T(5)\n"),
     ('order', "def f(a, b, c, m, o, d, e):\n    x = 0\n    while D(1):\n        e[x] = T(2, x)\n        x = x + 1\n    return T(3, x)\n"),
 ]
@@ -177,6 +180,7 @@ class Monitor(object):
         self.opts_checked = 0
         self.opts_unidentified = 0
         self.Undefined = ag.Undefined
+        self.resets = []
 
     # ---- helpers
     def fail(self, what, detail, classify=None):
@@ -440,6 +444,14 @@ class Monitor(object):
         self.dyn_cases.append((vlib.coq_list(['(%s, %s)' % (vlib.coq_str(k), v) for k, v in env]), heap,
                                vlib.coq_list(qs), get_t, vals, after_t, list(names)))
 
+    def orig_line(self, frame):
+        """line of the original statement the calling generated statement was made from (source map)"""
+        if self.source_map is not None:
+            for k, v in self.source_map.items():
+                if k.lineno == frame.f_lineno and k.filename == frame.f_code.co_filename:
+                    return v.loc.lineno
+        return None
+
     # ---- callbacks / options
     def check_callbacks(self, op, cbs, detail):
         for role, (f, want) in cbs.items():
@@ -454,12 +466,7 @@ class Monitor(object):
         if not isinstance(opts, dict):
             self.fail('%s: opts is not a dict' % op, detail)
             return
-        line = None
-        if self.source_map is not None:
-            for k, v in self.source_map.items():
-                if k.lineno == frame.f_lineno and k.filename == frame.f_code.co_filename:
-                    line = v.loc.lineno
-                    break
+        line = self.orig_line(frame)
         exp = self.expected_opts.get(line)
         if op == 'for_stmt' and hasattr(iter_, 'k'):
             byk = self.loop_keys.get(iter_.k)
@@ -497,6 +504,9 @@ class Monitor(object):
             res = ag.if_stmt(cond, body, orelse, get_state, set_state, symbol_names, nouts)
             new = get_state()
             if not any(mon.is_undef(v) and not nm.isidentifier() for v, nm in zip(new, symbol_names)) and nouts < len(new):
+                changed = [nm for nm, x, y in zip(symbol_names[nouts:], new[nouts:], init[nouts:]) if x is not y]
+                if changed:
+                    mon.resets.append((mon.orig_line(frame), changed))
                 set_state(tuple(new[:nouts]) + tuple(init[nouts:]))
             return res
 
@@ -911,6 +921,20 @@ def expected_opts(src):
     return out, keys
 
 
+def is_enclosing_for_target(src, module_line, var):
+    """classifier of the known finding: `var` is a target of a `for` loop that lexically encloses the
+    statement at module_line (the for header kills its target on the loop-exit edge, so liveness does
+    not see the use after the loop)"""
+    if module_line is None:
+        return False
+    line = module_line - SHIFT
+    for n in ast.walk(ast.parse(src)):
+        if isinstance(n, ast.For) and n.lineno < line <= n.end_lineno:
+            if var in {x.id for x in ast.walk(n.target) if isinstance(x, ast.Name)}:
+                return True
+    return False
+
+
 def decision_vectors(rnd, n):
     out = [[1, 2, 1, 0, 1, 3, 0, 1, 1, 0, 2, 1], [0] * 4, [1] * 6 + [0] * 6]
     while len(out) < n:
@@ -965,7 +989,7 @@ def check(run):
 
     rnd = random.Random(run.seed)
     h = Harness(run)
-    nprog = {'main': 320, 'missing': 50, 'order': 50} if not thorough else {'main': 1500, 'missing': 250, 'order': 250}
+    nprog = {'main': 320, 'missing': 50, 'order': 50} if not thorough else {'main': 1200, 'missing': 200, 'order': 200}
     nvec = 3 if not thorough else 5
     programs = list(CORPUS)
     for stream in ('main', 'missing', 'order'):
@@ -983,7 +1007,7 @@ def check(run):
             try:
                 mod = h.load(src)
                 monitor.expected_opts, monitor.loop_keys = expected_opts(src)
-                shift = 4      # module prelude lines in front of the function
+                shift = SHIFT
                 monitor.expected_opts = {k + shift: v for k, v in monitor.expected_opts.items()}
                 monitor.loop_keys = {k: v + shift for k, v in monitor.loop_keys.items()}
                 tf, smap = h.convert(mod, monitor, capture=tie_ok)
@@ -1004,14 +1028,17 @@ def check(run):
                                             'replay': 'cd /verif && bin/check C03 --replay <this file>'}, cls))
                 # functional emulation of `if`: non-outputs are not passed through
                 monitor.mode = 'functional'
+                monitor.resets = []
                 out_fun = run_fn(h, mod, tf, dv, monitor)
                 checked['functional_runs'] += 1
                 if out_fun != out_checked and not new_fail:
+                    cls_f = KNOWN_FORTARGET if monitor.resets and all(
+                        is_enclosing_for_target(src, line, v) for line, vs in monitor.resets for v in vs) else None
                     failures.append(('if_stmt: a variable that is live after the statement is not among the first nouts '
                                      '(resetting the non-outputs to their initial values changes the result)',
                                      {'what': 'outputs-first', 'stream': stream, 'program': src, 'decisions': dv,
                                       'with_contract_checks': repr(out_checked)[:1500], 'functional_if': repr(out_fun)[:1500],
-                                      'generated_code': inspect.getsource(tf)[:6000]}, None))
+                                      'resets': monitor.resets, 'generated_code': inspect.getsource(tf)[:6000]}, cls_f))
             for k, v in monitor.kinds.items():
                 kinds_total[k] = kinds_total.get(k, 0) + v
             run.count(monitor.checked_invocations)
@@ -1127,8 +1154,8 @@ def replay(path):
         monitor = Monitor(h.ag, h.op_params)
         mod = h.load(rep['program'])
         eo, lk = expected_opts(rep['program'])
-        monitor.expected_opts = {k + 4: v for k, v in eo.items()}
-        monitor.loop_keys = {k: v + 4 for k, v in lk.items()}
+        monitor.expected_opts = {k + SHIFT: v for k, v in eo.items()}
+        monitor.loop_keys = {k: v + SHIFT for k, v in lk.items()}
         tf, smap = h.convert(mod, monitor, capture=False)
         monitor.source_map = smap
         print(rep['program'])
@@ -1136,9 +1163,15 @@ def replay(path):
         print('outcome with contract checks:', out[0])
         for what, detail, cls in monitor.failures:
             print('FAIL%s: %s %s' % (' [known: %s]' % cls if cls else '', what, json.dumps(detail, default=str)[:400]))
+        differs = False
         if rep.get('what') == 'outputs-first':
             monitor.mode = 'functional'
-            print('functional if:', run_fn(h, mod, tf, rep['decisions'], monitor)[0])
-        return 1 if monitor.failures else 0
+            out2 = run_fn(h, mod, tf, rep['decisions'], monitor)
+            print('functional if (non-outputs reset to their initial values):', out2[0])
+            differs = out2 != out
+            if differs:
+                print('FAIL: resetting the non-outputs changes the observable outcome')
+        real = [f for f in monitor.failures if f[2] is None]
+        return 1 if real or differs else 0
     finally:
         h.cleanup()
